@@ -200,10 +200,296 @@ def _nnf(e: ast.AST, neg: bool = False):
         yield e, neg
 
 
+SIG_ATTRS = {"TIME_SIGNATURE": ("numerator", "denominator"), "KEY_SIGNATURE": ("key",)}
+
+
+class _SigInterp:
+    """Runs the loop body of the normaliser for a short series of *symbolic* signature events and reports, per path, whether
+    the last one is appended to the output.  Values: ("c", const), ("enum", member), ("a", k, attr) the attribute of event k,
+    ("t", (...)) tuples, ("d", name) a dict local (contents in `dicts`), ("u", n) unknown.  The only atoms are `event 2's
+    component == event 1's component`, fixed by the world; a test the values do not decide forks the path and marks it undecided
+    when it compares things the world says nothing about."""
+
+    def __init__(self, m: str, world: dict):
+        self.m = m
+        self.world = world
+        self.fresh = 0
+
+    def unknown(self):
+        self.fresh += 1
+        return ("u", self.fresh)
+
+    # -- values
+    def ev(self, e, st):
+        k, T = st["k"], st["T"]
+        if isinstance(e, ast.Constant):
+            return ("c", e.value)
+        if isinstance(e, ast.Name):
+            if e.id == self.m:
+                return ("m", k)
+            return st["env"].get(e.id, self.unknown())
+        if isinstance(e, ast.Attribute):
+            mem = enum_member(e, "MessageType")
+            if mem is not None:
+                return ("enum", mem)
+            if isinstance(e.value, ast.Name) and e.value.id == self.m and k is not None:
+                if e.attr == "message_type":
+                    return ("enum", T)
+                if e.attr in ("numerator", "denominator", "key"):
+                    return ("a", k, e.attr) if e.attr in SIG_ATTRS[T] else ("c", None)
+                return ("o", k, e.attr)                       # some other field of the event: opaque
+            return self.unknown()
+        if isinstance(e, ast.Tuple):
+            return ("t", tuple(self.ev(x, st) for x in e.elts))
+        if isinstance(e, ast.Call):
+            recv, name = call_method(e)
+            if isinstance(recv, ast.Name) and st["env"].get(recv.id, (None,))[0] == "d" and name == "get" and 1 <= len(e.args) <= 2 and not e.keywords:
+                d = st["dicts"].get(recv.id)
+                key = self.ev(e.args[0], st)
+                if d is None or self._has_unknown(key):
+                    return self.unknown()
+                if key in d:
+                    return d[key]
+                return self.ev(e.args[1], st) if len(e.args) == 2 else ("c", None)
+            return self.unknown()
+        if isinstance(e, ast.Subscript) and isinstance(e.value, ast.Name) and st["env"].get(e.value.id, (None,))[0] == "d":
+            d = st["dicts"].get(e.value.id)
+            key = self.ev(e.slice, st)
+            if d is not None and not self._has_unknown(key) and key in d:
+                return d[key]
+            return self.unknown()
+        if isinstance(e, ast.Subscript) and isinstance(e.slice, ast.Constant) and isinstance(e.slice.value, int):
+            v = self.ev(e.value, st)
+            if v[0] == "t" and -len(v[1]) <= e.slice.value < len(v[1]):
+                return v[1][e.slice.value]
+        return self.unknown()
+
+    def _has_unknown(self, v):
+        return v[0] in ("u", "o") or (v[0] == "t" and any(self._has_unknown(x) for x in v[1]))
+
+    def equal(self, a, b, st):
+        """True / False / None (not decided); marks the path when undecided"""
+        if a == b and not self._has_unknown(a):
+            return True
+        if a[0] == "t" and b[0] == "t":
+            if len(a[1]) != len(b[1]):
+                return False
+            rs = [self.equal(x, y, st) for x, y in zip(a[1], b[1])]
+            return False if any(r is False for r in rs) else (True if all(r is True for r in rs) else None)
+        if a[0] == "a" and b[0] == "a":
+            if a[2] == b[2] and {a[1], b[1]} == {1, 2}:
+                return self.world[a[2]]
+            return None
+        for x, y in ((a, b), (b, a)):
+            if x[0] == "a" and y[0] == "c":
+                return False if y[1] is None else None        # a component of a signature event is never None; it may equal another constant
+            if x[0] in ("t", "enum", "d", "m") and y[0] == "c":
+                return False
+        if a[0] == "c" and b[0] == "c":
+            return a[1] == b[1]
+        if a[0] == "enum" and b[0] == "enum":
+            return a[1] == b[1]
+        if {a[0], b[0]} <= {"a", "t", "enum", "c", "d", "m"} and a[0] != b[0]:
+            return False
+        return None
+
+    def truth(self, t, st):
+        if isinstance(t, ast.UnaryOp) and isinstance(t.op, ast.Not):
+            v = self.truth(t.operand, st)
+            return None if v is None else not v
+        if isinstance(t, ast.BoolOp):
+            vs = [self.truth(v, st) for v in t.values]
+            if isinstance(t.op, ast.And):
+                return False if any(v is False for v in vs) else (True if all(v is True for v in vs) else None)
+            return True if any(v is True for v in vs) else (False if all(v is False for v in vs) else None)
+        if isinstance(t, ast.Compare) and len(t.ops) == 1:
+            op = t.ops[0]
+            if isinstance(op, (ast.Eq, ast.NotEq, ast.Is, ast.IsNot)):
+                r = self.equal(self.ev(t.left, st), self.ev(t.comparators[0], st), st)
+                return None if r is None else (r == isinstance(op, (ast.Eq, ast.Is)))
+            if isinstance(op, (ast.In, ast.NotIn)):
+                right = t.comparators[0]
+                l_ = self.ev(t.left, st)
+                if isinstance(right, (ast.Tuple, ast.List, ast.Set)):
+                    rs = [self.equal(l_, self.ev(x, st), st) for x in right.elts]
+                    r = True if any(x is True for x in rs) else (False if all(x is False for x in rs) else None)
+                    return None if r is None else (r == isinstance(op, ast.In))
+                if isinstance(right, ast.Name) and st["env"].get(right.id, (None,))[0] == "d" and st["dicts"].get(right.id) is not None \
+                        and not self._has_unknown(l_):
+                    return (l_ in st["dicts"][right.id]) == isinstance(op, ast.In)
+        if isinstance(t, ast.Constant):
+            return bool(t.value)
+        return None
+
+    # -- statements
+    @staticmethod
+    def _copy(st, **kw):
+        d = dict(st)
+        d["env"] = dict(st["env"])
+        d["dicts"] = {k: (None if v is None else dict(v)) for k, v in st["dicts"].items()}
+        d.update(kw)
+        return d
+
+    def _touches(self, t, st):
+        """does an undecided test compare signature material (so that the verdict depends on it)?"""
+        for x in ast.walk(t):
+            if isinstance(x, ast.Attribute) and x.attr in ("numerator", "denominator", "key"):
+                return True
+            if isinstance(x, ast.Name) and x.id in st["sig_names"]:
+                return True
+        return False
+
+    def run(self, stmts, st):
+        states = [st]
+        for s_ in stmts:
+            nxt = []
+            for cur in states:
+                if cur["status"] != "run":
+                    nxt.append(cur)
+                    continue
+                nxt += self.step(s_, cur)
+            states = nxt
+            if len(states) > 256:
+                raise AnalysisError("SIG: more than 256 paths through the normaliser's loop body")
+        return states
+
+    def step(self, s_, st):
+        if isinstance(s_, ast.If):
+            v = self.truth(s_.test, st)
+            if v is None:
+                und = st["undecided"] or self._touches(s_.test, st)
+                return self.run(s_.body, self._copy(st, undecided=und)) + self.run(s_.orelse, self._copy(st, undecided=und))
+            return self.run(s_.body if v else s_.orelse, st)
+        if isinstance(s_, ast.Continue):
+            return [self._copy(st, status="continue")]
+        if isinstance(s_, (ast.Break, ast.Return, ast.Raise)):
+            return [self._copy(st, status="left")]
+        if isinstance(s_, ast.Assign) and len(s_.targets) == 1:
+            t_, v_ = s_.targets[0], s_.value
+            if isinstance(t_, ast.Name):
+                if (isinstance(v_, ast.Call) and isinstance(v_.func, ast.Name) and v_.func.id == "dict" and not v_.args and not v_.keywords) \
+                        or (isinstance(v_, ast.Dict) and not v_.keys):
+                    st["env"][t_.id] = ("d", t_.id)
+                    st["dicts"][t_.id] = {}
+                else:
+                    val = self.ev(v_, st)
+                    st["env"][t_.id] = val
+                    if self._sig_material(val):
+                        st["sig_names"] = st["sig_names"] | {t_.id}
+                return [st]
+            if isinstance(t_, ast.Tuple) and isinstance(v_, ast.Tuple) and len(t_.elts) == len(v_.elts) and all(isinstance(x, ast.Name) for x in t_.elts):
+                vals = [self.ev(x, st) for x in v_.elts]
+                for x, val in zip(t_.elts, vals):
+                    st["env"][x.id] = val
+                    if self._sig_material(val):
+                        st["sig_names"] = st["sig_names"] | {x.id}
+                return [st]
+            if isinstance(t_, ast.Subscript) and isinstance(t_.value, ast.Name) and st["env"].get(t_.value.id, (None,))[0] == "d":
+                key = self.ev(t_.slice, st)
+                val = self.ev(v_, st)
+                if st["dicts"].get(t_.value.id) is None or self._has_unknown(key):
+                    st["dicts"][t_.value.id] = None
+                else:
+                    st["dicts"][t_.value.id][key] = val
+                if self._sig_material(val):
+                    st["sig_names"] = st["sig_names"] | {t_.value.id}
+                return [st]
+            for x in ast.walk(t_):
+                if isinstance(x, ast.Name) and isinstance(x.ctx, ast.Store):
+                    st["env"][x.id] = self.unknown()
+            return [st]
+        if isinstance(s_, (ast.AugAssign, ast.AnnAssign)):
+            if isinstance(s_.target, ast.Name):
+                st["env"][s_.target.id] = self.ev(s_.value, st) if isinstance(s_, ast.AnnAssign) and s_.value is not None else self.unknown()
+            return [st]
+        if isinstance(s_, ast.Expr) and isinstance(s_.value, ast.Call):
+            recv, name = call_method(s_.value)
+            if name == "append" and len(s_.value.args) == 1 and isinstance(s_.value.args[0], ast.Name) and s_.value.args[0].id == self.m:
+                st["kept"] = st["kept"] + 1
+                return [st]
+            if isinstance(recv, ast.Name) and st["env"].get(recv.id, (None,))[0] == "d":
+                d = st["dicts"].get(recv.id)
+                if name == "setdefault" and len(s_.value.args) == 2 and d is not None:
+                    key = self.ev(s_.value.args[0], st)
+                    if self._has_unknown(key):
+                        return [st]                              # a fresh entry under a key that is no signature type: irrelevant
+                    d.setdefault(key, self.ev(s_.value.args[1], st))
+                elif name in ("pop", "update", "clear", "popitem", "__setitem__"):
+                    st["dicts"][recv.id] = None
+            return [st]
+        if isinstance(s_, (ast.For, ast.While)):
+            for x in ast.walk(s_):
+                if isinstance(x, ast.Name) and isinstance(x.ctx, ast.Store):
+                    st["env"][x.id] = self.unknown()
+            return [st]
+        if isinstance(s_, ast.With):
+            return self.run(s_.body, st)
+        if isinstance(s_, ast.Try):
+            return self.run(s_.body + s_.orelse + s_.finalbody, st)
+        return [st]
+
+    def _sig_material(self, v):
+        return v[0] == "a" or (v[0] == "t" and any(self._sig_material(x) for x in v[1]))
+
+
+def sig_semantics(ctx: Ctx, fi, loop, m: str):
+    """SIG decided by evaluation: for T in (time, key) signature, the series [e1:T, e2:T] and [e1:T, x:other kind, e2:T] are run
+    through the loop body symbolically; e1 (nothing in force yet) is kept, and e2 is kept iff one of its components differs from
+    e1's -- in every world (assignment of `component equal?`) and on every path.  Returns {T: True (decided, holds) | False
+    (decided, reported) | None (some path depends on a test the values do not decide: the shape rules judge)}."""
+    import itertools
+    verdicts = {}
+    pre = [s for s in fi.node.body if s.lineno < loop.lineno and isinstance(s, (ast.Assign, ast.AnnAssign))]
+    for T, attrs in SIG_ATTRS.items():
+        other = next(x for x in SIG_ATTRS if x != T)
+        bad, unsure, npaths = [], False, 0
+        for eqs in itertools.product((True, False), repeat=len(attrs)):
+            world = dict(zip(attrs, eqs))
+            it = _SigInterp(m, world)
+            st0 = dict(env={}, dicts={}, k=None, T=None, status="run", kept=0, undecided=False, sig_names=frozenset())
+            try:
+                inits = it.run(pre, st0)
+                for series in ((T, T), (T, other, T)):
+                    states = [it._copy(x) for x in inits]
+                    for pos, kind in enumerate(series):
+                        k = 1 if pos == 0 else (2 if pos == len(series) - 1 else "x")
+                        nxt = []
+                        for stt in states:
+                            nxt += it.run(loop.body, it._copy(stt, k=k, T=kind, status="run", kept=0))
+                        last = pos == len(series) - 1
+                        want = (1 if not all(eqs) else 0) if last else (1 if pos == 0 else None)
+                        for stt in nxt:
+                            npaths += 1
+                            if want is not None and stt["kept"] != want and stt["status"] != "left":
+                                if stt["undecided"]:
+                                    unsure = True
+                                else:
+                                    what = "the first" if pos == 0 else ("a changed" if want else "a repeated")
+                                    bad.append(f"{what} {T} event {'after an intervening ' + other + ' event ' if len(series) == 3 and last else ''}"
+                                               f"is {'dropped' if want else 'kept'} (components equal to the one in force: {world})")
+                        states = [x for x in nxt if x["status"] != "left"]
+            except AnalysisError:
+                unsure = True
+        if bad:
+            verdicts[T] = False
+            ctx.violation("SIG", f"{FN}: a {T} event is dropped iff it repeats the one in force", function=FN,
+                          construct=f"{T} repetition filter: {bad[0].split(' (')[0]}", message="; ".join(sorted(set(bad))[:3]), file=fi.file, node=loop)
+        elif unsure:
+            verdicts[T] = None
+        else:
+            verdicts[T] = True
+            ctx.ok("SIG", f"{FN}: a {T} event is kept iff a component differs from the {T} in force; the first one is kept; an intervening {other} changes nothing "
+                          f"({npaths} symbolic path(s), {2 ** len(attrs)} world(s))")
+    return verdicts
+
+
 def sig_rules(ctx: Ctx, fi, loop, m: str) -> None:
     """SIG: a signature event is dropped iff it repeats the one in force, component by component (shared with C15)."""
     p = ctx.p
+    decided = sig_semantics(ctx, fi, loop, m)
     for T, attrs in (("TIME_SIGNATURE", ("numerator", "denominator")), ("KEY_SIGNATURE", ("key",))):
+        if decided.get(T) is not None:
+            continue                                # decided by evaluation (either way); the shape rules below judge what it could not
         found = False
         for n in ast.walk(loop):
             if not isinstance(n, ast.If):
